@@ -473,7 +473,7 @@ func Run(tier string, seed int64, outDir string) *common.Meta {
 	// a recommendation observed at version V must exist in V (oracle only; which variant a rule covers is
 	// the rule author's choice, so no firing pattern is demanded)
 	{
-		tdir := "/verif/corpus/c15/targets"
+		tdir := filepath.Join(common.VerifRoot(), "corpus", "c15", "targets")
 		fset, pkgs, err := load.Packages(tdir, append(env, "GOFLAGS=-mod=mod"), ".")
 		if err != nil || len(pkgs) == 0 {
 			meta.Notes = append(meta.Notes, fmt.Sprintf("corpus/c15/targets not loaded: %v", err))
@@ -605,7 +605,7 @@ Definition cases : list (version * bool) := [
 }
 
 func dynamicRules(meta *common.Meta, versions []string, outDir string) (lines, idx []string) {
-	rules := "/verif/corpus/c15/rules.go"
+	rules := filepath.Join(common.VerifRoot(), "corpus", "c15", "rules.go")
 	if _, err := os.Stat(rules); err != nil {
 		meta.TieBroken = append(meta.TieBroken, "corpus/c15/rules.go missing")
 		return
